@@ -273,31 +273,31 @@ Section Complete.
 End Complete.
 
 (* restore of one keyset in the wallet model: for every bound N past the counters ever used, the
-   restored spendable + pending value is the mint-side unspent + pending value of the seed's outputs *)
-Theorem restore_keyset_complete : forall vr seed m ks w,
+   restored spendable + pending value is the mint-side unspent + pending value of the seed's outputs
+   (fuel: the number of batches the model is given; 400 in restore_keysets, i.e. counters < 40000) *)
+Theorem restore_keyset_complete : forall vr fuel seed m ks w,
   budget w < 0 ->
   let mt := nthZ m (mints w) mint0 in
   quiet mt ->
   no_gap_300 mt seed m ks ->
-  (forall c, 40000 <= c -> sig mt seed m ks c = None) ->
+  (forall c, Z.of_nat (100 * fuel) <= c -> sig mt seed m ks c = None) ->
   exists unspent pend stored w',
-    restore_keyset vr 400 seed m ks 0 0 0 [] [] w = (ROk (unspent, pend, stored), w') /\
-    forall N, (40000 <= N)%nat -> sum_amt unspent + sum_amt pend = live_below mt seed m ks N.
+    restore_keyset vr fuel seed m ks 0 0 0 [] [] w = (ROk (unspent, pend, stored), w') /\
+    forall N, (100 * fuel <= N)%nat -> sum_amt unspent + sum_amt pend = live_below mt seed m ks N.
 Proof.
-  intros vr seed m ks w Hb mt Hq Hgap Hbound.
-  destruct (restore_keyset_scan vr 400 seed m ks 0 0 0 [] [] w Hb Hq) as [w' [Hr _]].
+  intros vr fuel seed m ks w Hb mt Hq Hgap Hbound.
+  destruct (restore_keyset_scan vr fuel seed m ks 0 0 0 [] [] w Hb Hq) as [w' [Hr _]].
   fold mt in Hr.
-  pose proof (scan_complete mt seed m ks vr 400 0 0 0 [] [] Hgap ltac:(lia) ltac:(cbn; lia)) as Hc.
-  cbn [Nat.mul Nat.add Z.of_nat] in Hc.
-  assert (Hn : none_in mt seed m ks (0 - 100 * 0) (Z.to_nat (100 * 0))) by (intros k Hk; cbn in Hk; lia).
+  pose proof (scan_complete mt seed m ks vr fuel 0 0 0 [] [] Hgap ltac:(lia) ltac:(lia)) as Hc.
+  assert (Hn : none_in mt seed m ks (Z.of_nat (100 * 0) - 100 * 0) (Z.to_nat (100 * 0))) by (intros k Hk; lia).
   specialize (Hc Hn).
-  assert (Hb2 : forall c, Z.of_nat (100 * (0 + 400)) <= c -> sig mt seed m ks c = None).
-  { intros c Hc2. apply Hbound. cbn in Hc2. lia. }
+  assert (Hb2 : forall c, Z.of_nat (100 * (0 + fuel)) <= c -> sig mt seed m ks c = None).
+  { intros c Hc2. apply Hbound. replace (0 + fuel)%nat with fuel in Hc2 by lia. exact Hc2. }
   specialize (Hc Hb2 eq_refl).
   change (Z.of_nat (100 * 0)) with 0 in Hc.
-  destruct (scan vr mt 400 seed m ks 0 0 0 [] []) as [[a p] s] eqn:Es.
+  destruct (scan vr mt fuel seed m ks 0 0 0 [] []) as [[a p] s] eqn:Es.
   exists a, p, s, w'. split; [exact Hr|].
-  intros N HN. apply Hc. cbn. lia.
+  intros N HN. apply Hc. lia.
 Qed.
 
 (* ------------------------------------------------------------------ the counter after a restore *)
